@@ -19,17 +19,6 @@ structure PrmsOK {α} (P : PPrms α) : Prop where
     | .step st sc => st.length + 1 = sc.length ∧ sortedRat st = true
     | _ => True
 
-/-- The mixture that `ncomp_from_gmm` ends up selecting, with its number of components. -/
-def selectedFit {α} (K : Kern) (P : PPrms α) (vals : List Rat) (ncompMax : Nat) : Option (Nat × GmmFit) :=
-  let ncompMax := min ncompMax (vals.eraseDups).length
-  let scaled : List Rat :=
-    match P.gmmRescale with
-    | none => vals
-    | some x => (valids (minmaxScale (vals.map some) none none .doIt)).map (· * x)
-  let fits := (List.range ncompMax).map fun i => K.gmm P.gmmScores scaled (i + 1)
-  let abics := boostScores fits
-  let best := if P.gmmMode = "delta" then bestDelta abics P.gmmGain else K.bestProb abics P.gmmMinProb
-  (fits[best]?).map fun f => (best + 1, f)
 
 /-- A3: the mixture finally selected has no empty component (the code boosts the score of the others
 to rule them out, and `assert`s the outcome; monitored on every scene). -/
